@@ -58,10 +58,21 @@ def make_config(seed, tier="quick", corrupt=False, index=0):
     return cfg
 
 
+_FRAGMENTS = [b"\x0110=", b"\x0110=123\x01", b"10=045\x01", b"\x0110=1", b"\x019=57\x01", b"9=5\x01", b"35=D\x01", b"\x0134=7\x01",
+              b"=FIX.4.4\x01", b"8=FIX", b"8=", b"\x01", b"10=", b"\x0158=tail of a cut frame\x0110=201\x01"]
+
+
 def gen_garbage(r, n):
-    """Marker-free bytes."""
+    """Marker-free bytes: random, or built from pieces of FIX syntax (tail of a truncated frame, stray
+    CheckSum / BodyLength fields) that contain no frame-start marker and do not end in a prefix of one."""
     while True:
-        g = bytes(r.randrange(256) for _ in range(n))
+        if r.random() < 0.5:
+            g = bytes(r.randrange(256) for _ in range(n))
+        else:
+            parts = []
+            while sum(map(len, parts)) < n:
+                parts.append(r.choice(_FRAGMENTS) if r.random() < 0.7 else bytes(r.randrange(32, 127) for _ in range(r.randint(1, 6))))
+            g = b"".join(parts)
         if MARK not in g and not any(g.endswith(MARK[:k]) for k in range(1, 6)):
             return g
 
